@@ -4,7 +4,14 @@ Relations
   e2e : simulate_pt end to end on written VCF.gz(+tbi)/PGEN genotypes (SNPs, haplotype pseudo-genotypes, HipSTR-style
         repeats) and .snplist/.hap effect files with ID and sample subsets, replications and seeds; np.random.default_rng,
         PhenoSimulator.write and normalize_gts are wrapped to observe the draws and the table; the .pheno is parsed
-        independently; the same Coq checker as for `run` is evaluated on the expected loaded matrix
+        independently; the same Coq checker as for `run` is evaluated on the expected loaded matrix.  40 % of the cases go
+        through the `haptools simphenotype` COMMAND LINE (click CliRunner, in-process, same recorders; simulate_pt wrapped to
+        see what the command hands over) with every option {-r, --environment, -h, -p, --normalize/--no-normalize,
+        --region, -s/-S, -i/-I, -c, --repeats, --seed, -v} absent / given / given with its documented default, short and long
+        names, `--opt value` and `--opt=value`, any order; the case record is then built inside Coq from the options the
+        USER wrote (mkr_cli: absent = the documented default), so holds demands the noise variance documented for the
+        user's options, not for what reached run; the genetic component of those cases comes from simulate_pt called with
+        the documented reading of the options.  --region and --repeats (haplotypes + repeats) are used through both doors.
   run : PhenoSimulator.run called R times on an in-memory Genotypes object with the public rng replaced by a
         scripted recorder (returns a given noise vector, records loc/scale/size) and normalize_gts wrapped;
         a second simulator run with zero noise yields the genetic component; the phenotypes are then written
@@ -28,7 +35,7 @@ _SC = float(os.environ.get("HV_A7_SCALE", "1"))  # development only: scale the b
 PROP = "C09"
 CLAIMED = True
 COQ_MODULES = ["Stats", "StatsR", "C15_Model", "C15_Check", "C15_Proofs", "C09_Model", "C09_Check", "C09_Proofs",
-               "C09_ProofsModel", "C09_ProofsStd", "C09_ProofsFloat"]
+               "C09_ProofsModel", "C09_ProofsStd", "C09_ProofsFloat", "C09_ProofsCli"]
 PROPERTY_MODULE = "C09_Property"
 # exactly as Print Assumptions prints them.
 ALLOWED_AXIOMS = [
@@ -62,7 +69,11 @@ RULE = (
     "differ in one respect (trait type only, betas, normalize, heritability/environment, sub-list of the effects); once per "
     "run 255/256/257 samples; 3 % prevalences outside [0,1) (1, >1, <0: compared with the model only). e2e: additionally "
     "repeats with 128..253 copies per allele, missing calls and (class tr-copy>253) repeat alleles too long for the uint8 "
-    "store. Non-trivial = at least one effect found and (a non-constant column or prevalence given). Distinct = distinct "
+    "store, --region (whole contig; for SNPs a window of the file), a second genotypes file with --repeats, no --seed; "
+    "40 % through the simphenotype command line, every option absent / given / given with its documented default (-r 1, "
+    "--normalize), --no-normalize alone in 30 % of those, samples and IDs as repeated options or files, 3 % option sets the "
+    "command refuses (prevalence outside [0,1), --sample with --samples-file: compared with the model only). "
+    "Non-trivial = at least one effect found and (a non-constant column or prevalence given). Distinct = distinct "
     "canonical JSON."
 )
 TRUSTED = [
@@ -74,6 +85,9 @@ TRUSTED = [
     "the case count floor(K*n) and the liabilities fl(g+eps) are evaluated bit-exactly with PrimFloat",
     "Coq's primitive floats/integers implement IEEE-754 binary64 / arithmetic mod 2^63 as the standard library specifies "
     "(FloatAxioms, Uint63 axioms): trusted by every vm_compute evaluation of k_of and assumed by C09_k_of_floor",
+    "click's parsing of the command line (option names, FloatRange/IntRange, flag pairs) is not modelled: cli_defaults starts "
+    "from the parsed options; that the harness's reading of 'what the user wrote' is click's is checked by agree (the "
+    "arguments simulate_pt receives = cli_defaults of the options)",
     "tr_harmonizer / file loading are outside the model: the model starts from the dosage matrix the harness expects "
     "haptools to load (requested samples and variants in file order; repeat copy number = allele length / period)",
 ]
@@ -391,8 +405,21 @@ class Run(Relation):
             ot = "(Err 97)"
         else:
             ot = f"(Err {L.z(obs.get('err', obs.get('kind', 99)))})"
+        refuse = L.opt(inp.get('refuse'), lambda r: f"({L.z(r[0])}, {L.b(r[1])})")
+        cli = inp.get("cli")
+        if cli is not None:
+            # a command-line case: the record is built INSIDE Coq from the options the user wrote (mkr_cli: an absent
+            # option has its documented default), never from what reached simulate_pt / run
+            oz = lambda x: L.opt(x, L.z)
+            opts = (f"(mkopts {oz(cli['reps'])} {L.opt(cli['env'], H)} {L.opt(cli['h2'], H)} {L.opt(cli['prev'], H)} "
+                    f"{L.opt(cli['norm'], L.b)} {oz(cli['seed'])} {oz(cli['chunk'])})")
+            a = cli.get("args")
+            args = L.opt(a, lambda a: (f"(mkargs {L.z(a['reps'])} {L.opt(a['env'], H)} {L.opt(a['h2'], H)} {L.opt(a['prev'], H)} "
+                                       f"{L.b(a['norm'])} {oz(a['seed'])} {oz(a['chunk'])})"))
+            return (f"(mkr_cli {L.lst(inp['gids'], chars)} {gt} {eff} (mkcli {opts} {L.b(cli['two_sources'])} {args}) "
+                    f"{refuse} {ot})")
         return (f"(mkr {L.lst(inp['gids'], chars)} {gt} {eff} {L.opt(inp['h2'], H)} {L.opt(inp['env'], H)} "
-                f"{L.b(inp['norm'])} {L.opt(inp['prev'], H)} {L.opt(inp.get('refuse'), lambda r: f"({L.z(r[0])}, {L.b(r[1])})")} {ot})")
+                f"{L.b(inp['norm'])} {L.opt(inp['prev'], H)} {L.opt(inp.get('reps'), L.z)} None {refuse} {ot})")
 
     def _found(self, inp):
         return [e for e in inp["eff"] if e[0] in inp["gids"]]
@@ -545,65 +572,95 @@ MOTIFS = ["A", "AC", "GTT", "AAAG"]
 
 class E2E(Run):
     name = "e2e"
-    budget = {"quick": max(1, int(150 * _SC)), "thorough": 3000}
+    budget = {"quick": max(1, int(300 * _SC)), "thorough": 3000}
     timeout_per_case = 180
     anchors = [("haptools/sim_phenotype.py", "simulate_pt"), ("haptools/sim_phenotype.py", "PhenoSimulator.run"),
                ("haptools/sim_phenotype.py", "PhenoSimulator.write"), ("haptools/sim_phenotype.py", "Effect.from_hap_spec")]
+    if os.environ.get("HV_C09_NO_CLI_ANCHOR") != "1":    # development only (the anchor is new: `./check --record-anchors C09`)
+        anchors.append(("haptools/__main__.py", "simphenotype"))
+    CLI_SHARE = 0.4
+
+    @staticmethod
+    def _snp_block(rng, n, ids, pos):
+        p = len(ids)
+        variants = [["1", pos[j], ids[j], "A", "T", "."] for j in range(p)]
+        gt = [[[int(rng.integers(0, 2)), int(rng.integers(0, 2))] for _ in range(p)] for _ in range(n)]
+        if rng.random() < 0.2:
+            j = int(rng.integers(0, p))
+            for i in range(n):
+                gt[i][j] = [1, 0]  # a constant column
+        return variants, gt, [[list(c) for c in row] for row in gt]
+
+    @staticmethod
+    def _tr_block(rng, n, ids, pos):
+        p = len(ids)
+        variants, counts = [], []
+        r = rng.random()
+        regime = "small" if r < 0.6 else "big" if r < 0.9 else "over"
+        for j in range(p):
+            m = str(rng.choice(MOTIFS)) if regime == "small" else "A"
+            if regime == "small" or (j and rng.random() < 0.5):
+                cts = sorted(set(int(x) for x in rng.integers(1, 40, size=int(rng.integers(2, 5)))))
+            elif regime == "big":
+                # 128..253 copies: every dosage of two such alleles exceeds 255
+                cts = sorted(set(int(x) for x in rng.choice([128, 129, 200, 252, 253, int(rng.integers(128, 254))],
+                                                            size=int(rng.integers(2, 4)))))
+            else:
+                # alleles that do not fit the uint8 store (254, 255: the sentinels; 256.. wrap around)
+                cts = sorted(set([int(rng.integers(1, 40))] + [int(x) for x in rng.choice(
+                    [254, 255, 256, 257, 300, 509, 510, 512, int(rng.integers(256, 600))], size=int(rng.integers(1, 3)))]))
+            if len(cts) < 2:
+                cts = [cts[0], cts[0] + 1]
+            cts = [int(x) for x in rng.permutation(cts)]
+            variants.append(["1", pos[j], ids[j], m * cts[0], ",".join(m * c for c in cts[1:]),
+                             f"START={pos[j]};END={pos[j] + len(m) * cts[0] - 1};PERIOD={len(m)}"])
+            counts.append(cts)
+        gt = [[[int(rng.integers(0, len(counts[j]))), int(rng.integers(0, len(counts[j])))] for j in range(p)] for _ in range(n)]
+        vals = [[[counts[j][a] for a in gt[i][j]] for j in range(p)] for i in range(n)]
+        return variants, gt, vals
 
     def generate(self, rng, n_cases, tier):
         out = []
         for _ in range(n_cases):
             n = int(rng.integers(2, 9))
-            p = int(rng.integers(1, 6))
-            mode = str(rng.choice(["snplist", "snplist", "hap", "hap", "repeat"]))
+            mode = str(rng.choice(["snplist", "snplist", "snplist", "hap", "hap", "hap", "repeat", "repeat", "mixed"]))
             fmt = "vcf" if mode == "repeat" or rng.random() < 0.55 else "pgen"
             samples = [f"S{i}" for i in rng.permutation(20)[:n]]
-            pos = sorted(int(x) for x in rng.choice(np.arange(100, 5000), size=p, replace=False))
-            if mode == "repeat":
-                variants, counts = [], []
-                r = rng.random()
-                regime = "small" if r < 0.6 else "big" if r < 0.9 else "over"
-                for j in range(p):
-                    m = str(rng.choice(MOTIFS)) if regime == "small" else "A"
-                    if regime == "small" or (j and rng.random() < 0.5):
-                        cts = sorted(set(int(x) for x in rng.integers(1, 40, size=int(rng.integers(2, 5)))))
-                    elif regime == "big":
-                        # 128..253 copies: every dosage of two such alleles exceeds 255
-                        cts = sorted(set(int(x) for x in rng.choice([128, 129, 200, 252, 253, int(rng.integers(128, 254))],
-                                                                    size=int(rng.integers(2, 4)))))
-                    else:
-                        # alleles that do not fit the uint8 store (254, 255: the sentinels; 256.. wrap around)
-                        cts = sorted(set([int(rng.integers(1, 40))] + [int(x) for x in rng.choice(
-                            [254, 255, 256, 257, 300, 509, 510, 512, int(rng.integers(256, 600))], size=int(rng.integers(1, 3)))]))
-                    if len(cts) < 2:
-                        cts = [cts[0], cts[0] + 1]
-                    cts = [int(x) for x in rng.permutation(cts)]
-                    variants.append(["1", pos[j], f"tr{j}", m * cts[0], ",".join(m * c for c in cts[1:]),
-                                     f"START={pos[j]};END={pos[j] + len(m) * cts[0] - 1};PERIOD={len(m)}"])
-                    counts.append(cts)
-                gt = [[[int(rng.integers(0, len(counts[j]))), int(rng.integers(0, len(counts[j])))] for j in range(p)] for _ in range(n)]
-                vals = [[[counts[j][a] for a in gt[i][j]] for j in range(p)] for i in range(n)]
+            nh = None
+            if mode == "mixed":
+                # haplotype pseudo-genotypes in GENOTYPES and repeats in a second file given with --repeats
+                nh, nt = int(rng.integers(1, 4)), int(rng.integers(1, 3))
+                p = nh + nt
+                pp = [int(x) for x in rng.permutation(rng.choice(np.arange(100, 5000), size=p, replace=False))]
+                v1, g1, x1 = self._snp_block(rng, n, [f"H{j}" for j in range(nh)], sorted(pp[:nh]))
+                v2, g2, x2 = self._tr_block(rng, n, [f"tr{j}" for j in range(nt)], sorted(pp[nh:]))
+                variants = v1 + v2
+                gt = [a + b for a, b in zip(g1, g2)]
+                vals = [a + b for a, b in zip(x1, x2)]
             else:
-                pre = "v" if mode == "snplist" else "H"
-                variants = [["1", pos[j], f"{pre}{j}", "A", "T", "."] for j in range(p)]
-                gt = [[[int(rng.integers(0, 2)), int(rng.integers(0, 2))] for _ in range(p)] for _ in range(n)]
-                if rng.random() < 0.2:
-                    j = int(rng.integers(0, p))
-                    for i in range(n):
-                        gt[i][j] = [1, 0]  # a constant column
-                vals = gt
+                p = int(rng.integers(1, 6))
+                pos = sorted(int(x) for x in rng.choice(np.arange(100, 5000), size=p, replace=False))
+                if mode == "repeat":
+                    variants, gt, vals = self._tr_block(rng, n, [f"tr{j}" for j in range(p)], pos)
+                else:
+                    pre = "v" if mode == "snplist" else "H"
+                    variants, gt, vals = self._snp_block(rng, n, [f"{pre}{j}" for j in range(p)], pos)
             if rng.random() < 0.08:
                 # a missing call (one or both alleles) somewhere in the file
                 i, j = int(rng.integers(0, n)), int(rng.integers(0, p))
-                which = int(rng.integers(0, 3)) if fmt == "vcf" else 2   # PGEN cannot hold a half-missing call
-                gt = [[list(c) for c in row] for row in gt]
-                vals = [[list(c) for c in row] for row in vals] if vals is not gt else gt
+                in_vcf = fmt == "vcf" or (nh is not None and j >= nh)
+                which = int(rng.integers(0, 3)) if in_vcf else 2   # PGEN cannot hold a half-missing call
                 for a in ((0,), (1,), (0, 1))[which]:
                     gt[i][j][a] = -1
                     vals[i][j][a] = -1
             ids_all = [v[2] for v in variants]
             m = int(rng.integers(1, p + 1))
             eff_ids = [str(x) for x in rng.permutation(ids_all)[:m]]
+            if mode == "mixed":
+                # at least one haplotype and one repeat among the effects (otherwise --repeats is an error of use)
+                for want in (ids_all[:nh], ids_all[nh:]):
+                    if not set(eff_ids) & set(want):
+                        eff_ids.insert(int(rng.integers(0, len(eff_ids) + 1)), str(rng.choice(want)))
             if rng.random() < 0.25:
                 eff_ids.insert(int(rng.integers(0, len(eff_ids) + 1)), "absent1")
             if mode == "snplist" and rng.random() < 0.1:
@@ -614,29 +671,147 @@ class E2E(Run):
                 known = [e for e in eff_ids if e in ids_all]
                 k = int(rng.integers(1, len(known) + 1))
                 ids = sorted(set(str(x) for x in rng.permutation(known)[:k]))
+                if mode == "mixed":
+                    for want in (ids_all[:nh], ids_all[nh:]):
+                        if not set(ids) & set(want):
+                            ids.append(sorted(set(known) & set(want))[0])
+                    ids = sorted(set(ids))
                 if mode == "snplist" and rng.random() < 0.4:
                     ids.append("unknownID")
             sel = None
             if rng.random() < 0.4:
                 k = int(rng.integers(1, n + 1))
                 sel = [str(x) for x in rng.permutation(samples)[:k]] + (["nobody"] if rng.random() < 0.3 else [])
-            out.append({"mode": mode, "fmt": fmt, "samples": samples, "variants": variants, "gt": gt, "vals": vals,
-                        "effects": effects, "ids": ids, "sel": sel, "R": int(rng.choice([1, 2, 3, 4])),
-                        "h2": None if rng.random() < 0.45 else float(rng.choice([0.1, 0.3, 0.5, 1.0, 0.75])),
-                        "env": None if rng.random() < 0.55 else float(rng.choice([0.0, 0.5, 1.0, 2.5])),
-                        "norm": bool(rng.random() < 0.6), "prev": prevalences(rng, len(sel) if sel else n) if rng.random() < 0.5 else None,
-                        "seed": int(rng.choice([0, 1, 42, 2**32 - 1])), "chunk": None if rng.random() < 0.5 else int(rng.integers(1, 4))})
+            # --region: the whole contig (any mode) or, for SNPs, a window of the file that keeps at least one causal SNP
+            region = None
+            r = rng.random()
+            if r < 0.12:
+                region = {"s": "1"}
+            elif r < 0.3 and mode == "snplist":
+                wanted = [j for j, v in enumerate(variants) if v[2] in (ids if ids is not None else eff_ids)]
+                j = int(rng.choice(wanted))
+                lo, hi = int(rng.integers(0, j + 1)), int(rng.integers(j, p))
+                below = variants[lo - 1][1] if lo > 0 else 0
+                above = variants[hi + 1][1] if hi + 1 < p else 10 ** 6
+                a = variants[lo][1] - int(rng.integers(0, min(3, variants[lo][1] - below)))
+                b = variants[hi][1] + int(rng.integers(0, min(3, above - variants[hi][1])))
+                region = {"s": f"1:{a}-{b}", "lo": a, "hi": b}
+            case = {"mode": mode, "fmt": fmt, "samples": samples, "variants": variants, "gt": gt, "vals": vals, "nh": nh,
+                    "effects": effects, "ids": ids, "sel": sel, "R": int(rng.choice([1, 2, 3, 4])),
+                    "h2": None if rng.random() < 0.45 else float(rng.choice([0.1, 0.3, 0.5, 1.0, 0.75])),
+                    "env": None if rng.random() < 0.55 else float(rng.choice([0.0, 0.5, 1.0, 2.5])),
+                    "norm": bool(rng.random() < 0.6), "prev": prevalences(rng, len(sel) if sel else n) if rng.random() < 0.5 else None,
+                    "seed": None if rng.random() < 0.1 else int(rng.choice([0, 1, 42, 2**32 - 1])),
+                    "chunk": None if rng.random() < 0.5 else int(rng.integers(1, 4)), "region": region, "cli": None}
+            if rng.random() < self.CLI_SHARE:
+                self._through_cli(rng, case)
+            out.append(case)
         return out
+
+    @staticmethod
+    def _through_cli(rng, case):
+        """run the case through `haptools simphenotype`: how every option is written, with the DEFAULT paths (option
+        absent although its value is the documented default / option given explicitly with that value) at high rates"""
+        if rng.random() < 0.5:
+            case["R"] = 1
+        if rng.random() < 0.35:
+            case["seed"] = None
+        if rng.random() < 0.3:
+            # the option combination where the command itself has something to say: --no-normalize alone
+            case["norm"], case["h2"], case["env"] = False, None, None
+        case["cli"] = {
+            "reps": "absent" if case["R"] == 1 and rng.random() < 0.5 else "given",      # -r 1 == no -r
+            "norm": "absent" if case["norm"] and rng.random() < 0.5 else "given",       # --normalize == no flag
+            "ids": str(rng.choice(["opt", "file"])),                                     # -i ... / --ids-file
+            "sel": "both" if case["sel"] and rng.random() < 0.08 else str(rng.choice(["opt", "file"])),
+            "verb": [None, None, "DEBUG", "ERROR", "CRITICAL"][int(rng.integers(0, 5))],
+            "spell": int(rng.integers(0, 2 ** 30)),   # short / long names, `--opt value` / `--opt=value`, order of the options
+        }
 
     def exhaustive(self, tier):
         return []
 
     @staticmethod
+    def cli_view(inp):
+        """what the user wrote, option by option (None = absent); consistent whatever a shrink step did to the values"""
+        c = inp["cli"]
+        return {"reps": None if c["reps"] == "absent" and inp["R"] == 1 else inp["R"], "env": inp["env"], "h2": inp["h2"],
+                "prev": inp["prev"], "norm": None if c["norm"] == "absent" and inp["norm"] else inp["norm"],
+                "seed": inp["seed"], "chunk": inp["chunk"], "two_sources": bool(c["sel"] == "both" and inp["sel"])}
+
+    @classmethod
+    def argv(cls, inp, gfile, efile, rfile, d, out):
+        """the command line of a cli case"""
+        import random
+
+        c, u = inp["cli"], cls.cli_view(inp)
+        rnd = random.Random(c["spell"])
+        opts = []
+
+        def add(short, long, val=None):
+            name = short if short and rnd.random() < 0.5 else long
+            if val is None:
+                opts.append([name])
+            elif name.startswith("--") and (rnd.random() < 0.3 or str(val).startswith("-")):
+                opts.append([f"{name}={val}"])
+            elif str(val).startswith("-"):
+                opts.append([f"{long}={val}"])
+            else:
+                opts.append([name, str(val)])
+
+        if u["reps"] is not None:
+            add("-r", "--replications", u["reps"])
+        if u["env"] is not None:
+            add(None, "--environment", repr(u["env"]))
+        if u["h2"] is not None:
+            add("-h", "--heritability", repr(u["h2"]))
+        if u["prev"] is not None:
+            add("-p", "--prevalence", repr(u["prev"]))
+        if u["norm"] is not None:
+            add(None, "--normalize" if u["norm"] else "--no-normalize")
+        if inp.get("region"):
+            add(None, "--region", inp["region"]["s"])
+        if inp["sel"] is not None:
+            how = c["sel"]
+            if how in ("opt", "both"):
+                for s in inp["sel"]:
+                    add("-s", "--sample", s)
+            if how in ("file", "both"):
+                fn = os.path.join(d, "samples.txt")
+                with open(fn, "w") as f:
+                    f.write("".join(s + "\n" for s in inp["sel"]))
+                add("-S", "--samples-file", fn)
+        if inp["ids"] is not None:
+            if c["ids"] == "opt":
+                for s in inp["ids"]:
+                    add("-i", "--id", s)
+            else:
+                fn = os.path.join(d, "ids.txt")
+                with open(fn, "w") as f:
+                    f.write("".join(s + "\n" for s in inp["ids"]))
+                add("-I", "--ids-file", fn)
+        if u["chunk"] is not None:
+            add("-c", "--chunk-size", u["chunk"])
+        if rfile is not None:
+            add(None, "--repeats", rfile)
+        if u["seed"] is not None:
+            add(None, "--seed", u["seed"])
+        if c.get("verb"):
+            add("-v", "--verbosity", c["verb"])
+        add("-o", "--output", out)   # always: the default is the process's real stdout
+        rnd.shuffle(opts)
+        k = rnd.choice([0, len(opts), rnd.randint(0, len(opts))])     # options before, after and around the two arguments
+        flat = lambda xs: [t for o in xs for t in o]
+        return ["simphenotype"] + flat(opts[:k]) + [gfile, efile] + flat(opts[k:])
+
+    @staticmethod
     def expected(inp):
-        """what simulate_pt loads: requested samples/variants in FILE order; effects in list order"""
+        """what simulate_pt loads: requested samples/variants in FILE order (with --repeats: the variants of GENOTYPES,
+        then those of the repeats file); effects in list order"""
         eff = [e for e in inp["effects"] if inp["ids"] is None or e[0] in inp["ids"]]
         wanted = set(inp["ids"]) if inp["ids"] is not None else set(e[0] for e in inp["effects"])
-        cols = [j for j, v in enumerate(inp["variants"]) if v[2] in wanted]
+        reg = inp.get("region") or {}
+        cols = [j for j, v in enumerate(inp["variants"]) if v[2] in wanted and ("lo" not in reg or reg["lo"] <= v[1] <= reg["hi"])]
         rows = [i for i, s in enumerate(inp["samples"]) if inp["sel"] is None or s in inp["sel"]]
         gt = [[list(inp["vals"][i][j]) for j in cols] for i in rows]
         refuse = None
@@ -656,6 +831,7 @@ class E2E(Run):
                 "gt": gt, "eff": eff, "refuse": refuse}
 
     def run_impl(self, inp):
+        import inspect
         import warnings
         from pathlib import Path
 
@@ -663,32 +839,43 @@ class E2E(Run):
 
         d = tempfile.mkdtemp(prefix="hv_c09e_")
         real_rng = np.random.default_rng
-        orig_write, orig_norm = sp.PhenoSimulator.write, sp.PhenoSimulator.normalize_gts
+        orig_write, orig_norm, orig_sim = sp.PhenoSimulator.write, sp.PhenoSimulator.normalize_gts, sp.simulate_pt
+        cli = inp.get("cli")
         try:
+            nh = inp.get("nh")
+            hv = inp["variants"] if nh is None else inp["variants"][:nh]
+            hgt = inp["gt"] if nh is None else [row[:nh] for row in inp["gt"]]
             if inp["fmt"] == "vcf":
                 gfile = os.path.join(d, "g.vcf.gz")
-                write_vcf(gfile, inp["samples"], inp["variants"], inp["gt"], tr=inp["mode"] == "repeat")
+                write_vcf(gfile, inp["samples"], hv, hgt, tr=inp["mode"] == "repeat")
             else:
                 gfile = os.path.join(d, "g.pgen")
-                write_pgen(os.path.join(d, "g"), inp["samples"], inp["variants"], inp["gt"])
+                write_pgen(os.path.join(d, "g"), inp["samples"], hv, hgt)
+            rfile = None
+            if nh is not None:
+                rfile = os.path.join(d, "r.vcf.gz")
+                write_vcf(rfile, inp["samples"], inp["variants"][nh:], [row[nh:] for row in inp["gt"]], tr=True)
             if inp["mode"] == "snplist":
                 efile = os.path.join(d, "e.snplist")
                 with open(efile, "w") as f:
                     f.write("".join(f"{e[0]}\t{e[1]!r}\n" for e in inp["effects"]))
             else:
                 efile = os.path.join(d, "e.hap")
-                T = "H" if inp["mode"] == "hap" else "R"
+                trs = set(v[2] for v in (inp["variants"] if inp["mode"] == "repeat" else inp["variants"][nh:] if nh is not None else []))
                 posof = {v[2]: v[1] for v in inp["variants"]}
                 with open(efile, "w") as f:
                     f.write("#\tversion\t0.2.0\n#H\tbeta\t.2f\tEffect size in linear model\n#R\tbeta\t.2f\tEffect size in linear model\n")
                     for e in inp["effects"]:
+                        T = "R" if e[0] in trs or (inp["mode"] == "repeat") else "H"
                         st = posof.get(e[0], 50)
                         f.write(f"{T}\t1\t{st}\t{st + 10}\t{e[0]}\t{e[1]:.2f}\n")
             state = {}
 
             class Rec:
                 def __init__(self, seed, zero):
-                    self.g, self.zero, self.calls, self.seed = real_rng(seed), zero, [], seed
+                    # --seed absent: numpy would seed from the OS; the recorder draws from a fixed stream instead (the
+                    # checker is told every value drawn, so any stream will do, and the case stays reproducible)
+                    self.g, self.zero, self.calls, self.seed = real_rng(20240229 if seed is None else seed), zero, [], seed
 
                 def normal(self, loc=0.0, scale=1.0, size=None):
                     v = self.g.normal(loc, scale if scale == scale and scale >= 0 else 1.0, size=size)
@@ -712,32 +899,86 @@ class E2E(Run):
                 state["z"] = np.asarray(z, dtype=np.float64).tolist()
                 return z
 
-            def go(zero, prev, R, out):
+            def wsim(*a, **k):
+                # what the command hands to the Python entry point
+                try:
+                    b = inspect.signature(orig_sim).bind(*a, **k)
+                    b.apply_defaults()
+                    v = b.arguments
+                    fo = lambda x: None if x is None else float(x)
+                    io = lambda x: None if x is None else int(x)
+                    assert isinstance(v["normalize"], (bool, np.bool_))
+                    state["args"] = {"reps": int(v["num_replications"]), "env": fo(v["environment"]), "h2": fo(v["heritability"]),
+                                     "prev": fo(v["prevalence"]), "norm": bool(v["normalize"]), "seed": io(v["seed"]),
+                                     "chunk": io(v["chunk_size"])}
+                except Exception:  # noqa: the entry point's parameters changed: not observed
+                    state["args"] = None
+                return orig_sim(*a, **k)
+
+            def go(zero, prev, R, out, through_cli):
                 state.clear()
+                argv = self.argv(inp, gfile, efile, rfile, d, out) if through_cli else None
                 np.random.default_rng = lambda seed=None: state.setdefault("rec", Rec(seed, zero))
                 sp.PhenoSimulator.write, sp.PhenoSimulator.normalize_gts = wwrite, wnorm
+                last_resort, logging.lastResort = logging.lastResort, None    # loggers nobody configured: keep stderr clean
                 try:
-                    sp.simulate_pt(Path(gfile), Path(efile), R, inp["env"], inp["h2"], prev, inp["norm"], None,
-                                   set(inp["sel"]) if inp["sel"] is not None else None,
-                                   set(inp["ids"]) if inp["ids"] is not None else None,
-                                   inp["chunk"], None, inp["seed"], Path(out), quiet_logger())
+                    if through_cli:
+                        from click.testing import CliRunner
+
+                        from haptools.__main__ import main
+
+                        sp.simulate_pt = wsim
+                        res = CliRunner().invoke(main, argv, catch_exceptions=False)
+                        state["exit"] = int(res.exit_code)
+                        state["output"] = res.output[-300:]
+                    else:
+                        sp.simulate_pt(Path(gfile), Path(efile), R, inp["env"], inp["h2"], prev, inp["norm"],
+                                       (inp.get("region") or {}).get("s"),
+                                       set(inp["sel"]) if inp["sel"] is not None else None,
+                                       set(inp["ids"]) if inp["ids"] is not None else None,
+                                       inp["chunk"], Path(rfile) if rfile else None, inp["seed"], Path(out), quiet_logger())
                 finally:
                     np.random.default_rng = real_rng
-                    sp.PhenoSimulator.write, sp.PhenoSimulator.normalize_gts = orig_write, orig_norm
+                    logging.lastResort = last_resort
+                    sp.PhenoSimulator.write, sp.PhenoSimulator.normalize_gts, sp.simulate_pt = orig_write, orig_norm, orig_sim
+                    lg = logging.getLogger("haptools.simphenotype")
+                    for h in list(lg.handlers):
+                        lg.removeHandler(h)
                 return dict(state)
 
+            extra = {}
             with warnings.catch_warnings(), np.errstate(all="ignore"):
                 warnings.simplefilter("ignore")
                 try:
-                    s0 = go(True, None, 1, os.path.join(d, "o0.pheno"))
                     out = os.path.join(d, "o.pheno")
-                    s1 = go(False, inp["prev"], inp["R"], out)
+                    if cli:
+                        # the command first: a refusal of the options comes before anything is loaded
+                        try:
+                            s1 = go(False, inp["prev"], inp["R"], out, True)
+                        finally:
+                            extra = {"cliargs": state.get("args")}
+                        if s1["exit"] == 2:
+                            return dict(extra, err=err_kind("UsageError"), cls="UsageError", msg=s1["output"])
+                        if s1["exit"] != 0:
+                            return dict(extra, err=err_kind("SystemExit"), cls="SystemExit", msg=s1["output"])
+                        s0 = go(True, None, 1, os.path.join(d, "o0.pheno"), False)
+                    else:
+                        s0 = go(True, None, 1, os.path.join(d, "o0.pheno"), False)
+                        s1 = go(False, inp["prev"], inp["R"], out, False)
                 except Exception as e:  # noqa
-                    return {"err": err_kind(e), "cls": type(e).__name__, "msg": str(e)[:200]}
-            if "rec" not in s1 or "data" not in s1 or len(s1["rec"].calls) != inp["R"] or (inp["norm"] and "z" not in s1):
-                return {"unobserved": "generator / write / normalize_gts not used as expected"}
+                    return dict(extra, err=err_kind(e), cls=type(e).__name__, msg=str(e)[:200])
+            if cli and inp["norm"] and "z" not in s1 and "z" in s0:
+                # the user asked for normalised genotypes (flag absent or --normalize), simulate_pt called with normalize=True
+                # standardises through normalize_gts (s0), the command's run did not: the phenotypes are checked against the
+                # standardised matrix of s0 (same files, same selection), pt = g + eps decides
+                s1["d"], s1["z"] = s0["d"], s0["z"]
+            if "rec" not in s1 or "data" not in s1 or not s1["rec"].calls or (inp["norm"] and "z" not in s1):
+                return dict(extra, unobserved="generator / write / normalize_gts not used as expected")
             if s1["rec"].seed != inp["seed"]:
-                return {"unobserved": "generator not created from the given seed"}
+                return dict(extra, unobserved="generator not created from the given seed")
+            nrep = len(s1["rec"].calls)
+            if any(len(row) != nrep for row in s1["data"]):
+                return dict(extra, unobserved="not one recorded draw per phenotype column")
             lines = open(out).read().split("\n")
             assert lines[-1] == "", "file must end with a newline"
             header = lines[0].split("\t")
@@ -745,24 +986,27 @@ class E2E(Run):
             exp = self.expected(inp)
             same = (s1["samples"] == exp["samples"] and s1["gsamples"] == exp["samples"] and [r[0] for r in rows] == exp["samples"]
                     and header[0] == "#IID")
-            return {"ok": {"d": s1.get("d") if inp["norm"] else None, "z": s1.get("z") if inp["norm"] else None,
-                           "g": [row[0] for row in s0["data"]], "calls": [c[:3] for c in s1["rec"].calls],
-                           "eps": [c[3] for c in s1["rec"].calls],
-                           "pts": [[row[r] for row in s1["data"]] for r in range(inp["R"])],
-                           "names": s1["names"], "same": bool(same), "data": s1["data"], "header": header[1:],
-                           "read": [[float(x) for x in r[1:]] for r in rows]}}
+            return dict(extra, ok={"d": s1.get("d") if inp["norm"] else None, "z": s1.get("z") if inp["norm"] else None,
+                                   "g": [row[0] for row in s0["data"]], "calls": [c[:3] for c in s1["rec"].calls],
+                                   "eps": [c[3] for c in s1["rec"].calls],
+                                   "pts": [[row[r] for row in s1["data"]] for r in range(nrep)],
+                                   "names": s1["names"], "same": bool(same), "data": s1["data"], "header": header[1:],
+                                   "read": [[float(x) for x in r[1:]] for r in rows]})
         finally:
             np.random.default_rng = real_rng
-            sp.PhenoSimulator.write, sp.PhenoSimulator.normalize_gts = orig_write, orig_norm
+            sp.PhenoSimulator.write, sp.PhenoSimulator.normalize_gts, sp.simulate_pt = orig_write, orig_norm, orig_sim
             shutil.rmtree(d, ignore_errors=True)
 
     def _as_run(self, inp, obs):
         exp = self.expected(inp)
         n = len(exp["gt"])
         eps = obs["ok"]["eps"] if "ok" in obs else [[0.0] * n for _ in range(inp["R"])]
+        cli = None
+        if inp.get("cli"):
+            cli = dict(self.cli_view(inp), args=obs.get("cliargs"))
         return {"gids": exp["gids"], "gt": exp["gt"], "eff": exp["eff"], "h2": inp["h2"], "env": inp["env"],
                 "norm": inp["norm"], "prev": inp["prev"], "eps": eps, "phase": False, "kind": "e2e", "labs": [inp["mode"]],
-                "refuse": exp["refuse"]}
+                "refuse": exp["refuse"], "reps": inp["R"], "cli": cli}
 
     def encode(self, inp, obs):
         return Run.encode(self, self._as_run(inp, obs), obs)
@@ -778,6 +1022,30 @@ class E2E(Run):
             out.append("effect-absent-from-genotypes")
         if inp["fmt"] == "pgen":
             out.append(f"chunk={inp['chunk']}")
+        reg = inp.get("region")
+        out.append("region=" + ("none" if not reg else "window" if "lo" in reg else "contig"))
+        if inp.get("nh") is not None:
+            out.append("--repeats")
+        cli = inp.get("cli")
+        out.append("via=command-line" if cli else "via=simulate_pt")
+        if cli:
+            u = self.cli_view(inp)
+            out.append("cli:-r " + ("absent" if u["reps"] is None else "1 explicit" if u["reps"] == 1 else "R>1"))
+            out.append("cli:" + ("no normalize flag" if u["norm"] is None else "--normalize" if u["norm"] else "--no-normalize"))
+            out.append(f"cli:h2={'given' if u['h2'] is not None else 'absent'},env={'given' if u['env'] is not None else 'absent'}")
+            if u["norm"] is False and u["h2"] is None and u["env"] is None:
+                out.append("cli:--no-normalize alone (the command logs an error)")
+            if u["h2"] == 0.5:
+                out.append("cli:-h 0.5 explicit (the help-text default)")
+            out.append("cli:--seed " + ("absent" if u["seed"] is None else "given"))
+            if inp["ids"] is not None:
+                out.append("cli:ids via " + ("--id" if cli["ids"] == "opt" else "--ids-file"))
+            if inp["sel"] is not None:
+                out.append("cli:samples via " + {"opt": "--sample", "file": "--samples-file", "both": "both (usage error)"}[cli["sel"]])
+            if u["chunk"] is not None:
+                out.append("cli:--chunk-size")
+            if cli.get("verb"):
+                out.append("cli:-v " + cli["verb"])
         cells = [a for row in inp["vals"] for c in row for a in c]
         if any(a < 0 for a in cells):
             out.append("missing-call")
@@ -797,11 +1065,22 @@ class E2E(Run):
     def shrink(self, inp):
         if inp["R"] > 1:
             yield dict(inp, R=1)
-        for key in ("ids", "sel", "h2", "env", "prev", "chunk"):
-            if inp[key] is not None:
+        for key in ("ids", "sel", "h2", "env", "prev", "chunk", "region", "seed"):
+            if inp.get(key) is not None:
                 yield dict(inp, **{key: None})
         if inp["norm"]:
             yield dict(inp, norm=False)
+        cli = inp.get("cli")
+        if cli:
+            yield dict(inp, cli=None)
+            if cli.get("verb"):
+                yield dict(inp, cli=dict(cli, verb=None))
+            if cli["reps"] != "absent" and inp["R"] == 1:
+                yield dict(inp, cli=dict(cli, reps="absent"))
+            if cli["norm"] != "absent" and inp["norm"]:
+                yield dict(inp, cli=dict(cli, norm="absent"))
+            if cli["spell"]:
+                yield dict(inp, cli=dict(cli, spell=0))
         for j in range(len(inp["effects"])):
             if len(inp["effects"]) > 1:
                 yield dict(inp, effects=inp["effects"][:j] + inp["effects"][j + 1:])
@@ -810,21 +1089,35 @@ class E2E(Run):
             if n > 2 and inp["sel"] is None:
                 yield dict(inp, samples=inp["samples"][:i] + inp["samples"][i + 1:], gt=inp["gt"][:i] + inp["gt"][i + 1:],
                            vals=inp["vals"][:i] + inp["vals"][i + 1:])
+        p = len(inp["variants"])
+        used = set(e[0] for e in inp["effects"]) | set(inp["ids"] or [])
+        for j in range(p):
+            if p > 1 and inp.get("nh") is None and inp["variants"][j][2] not in used:
+                yield dict(inp, variants=inp["variants"][:j] + inp["variants"][j + 1:],
+                           gt=[r[:j] + r[j + 1:] for r in inp["gt"]], vals=[r[:j] + r[j + 1:] for r in inp["vals"]])
         if inp["fmt"] == "pgen":
             yield dict(inp, fmt="vcf", chunk=None)
 
     def mutate(self, inp, rng):
         for s in (0, 1, 42):
             yield dict(inp, seed=s)
+        if not inp.get("cli"):
+            # the same request written as a command line
+            c = dict(inp)
+            self._through_cli(rng, c)
+            yield c
 
     def signature(self, inp, obs):
         absent = any(e[0] not in [v[2] for v in inp["variants"]] for e in inp["effects"])
+        via = "simphenotype command line" if inp.get("cli") else "simulate_pt"
         if "ok" not in obs:
-            return f"e2e simulate_pt raised {obs.get('cls', obs.get('__exc__', '?'))}" + (" with an effect ID absent from the genotypes" if absent else "")
+            return f"e2e {via} raised {obs.get('cls', obs.get('__exc__', '?'))}" + (" with an effect ID absent from the genotypes" if absent else "")
         if absent:
             return "e2e with an effect ID absent from the genotypes: betas applied to other columns"
         if any(a > 253 for row in self.expected(inp)["gt"] for c in row for a in c):
             return "e2e repeat allele with more than 253 copies: copy number silently reduced mod 256"
+        if inp.get("cli"):
+            return f"e2e command line {inp['mode']}/{inp['fmt']}: phenotypes differ from the model documented for the options given"
         return f"e2e {inp['mode']}/{inp['fmt']} phenotypes differ from the documented model"
 
 
@@ -838,7 +1131,11 @@ LEVEL_TEXT = (
     "argpartition's contract and with the boolean checker; the model and the property's boolean checkers are evaluated "
     "inside Coq (k_of bit-exactly by PrimFloat) on every generated call of the implementation run with a scripted noise "
     "generator - every call of run() on a simulator (repeated calls with one signature and calls after other uses of the "
-    "same simulator), each against the genetic component of a fresh simulator: phenotype k = genetic + eps_k."
+    "same simulator), each against the genetic component of a fresh simulator: phenotype k = genetic + eps_k. The command: "
+    "a model of how simphenotype maps absent options to simulate_pt's arguments (cli_defaults), the theorem that the "
+    "documented noise formula on the user's options is noise_var of those arguments, that any command with this property "
+    "leaves an absent heritability/environment absent, the refuted 'absent heritability becomes 0.5 under --no-normalize'; "
+    "40 % of the end-to-end cases are run through the command line and judged by the options the user wrote."
 )
 LEVEL_NOTE = (
     "partial: 'eps is i.i.d. normal' is a statement about numpy's generator and is only checked structurally (one "
